@@ -175,6 +175,8 @@ Timing ==
 Ctx ==
   /\ Is("ctx") /\ Adv /\ EUnch
   /\ viol' = viol \cup If(Running /\ cur.obs.ended = "running" /\ Ev.inv = topInv /\ Ev.where \notin {"after", "at-cleanup"} /\ Ev.err # "nil", "dead_context_in_body")
+                  \* (the harness samples the contexts of a finished test case again when the next one begins)
+                  \cup If(Ev.where = "after" /\ Ev.err = "nil", "context_outlives_case")
   /\ UNCHANGED <<scen, ffBuf, topInv, runlog, prev, runinfo>>
 
 InvEnd ==
